@@ -190,7 +190,11 @@ func c12CallCtx(ctx context.Context, r *redis.Redis, m string, a kit.M, uc bool)
 	case "PFMerge":
 		do(func() { err = r.PFMerge(dst, ks...) }, func() { err = r.PFMergeCtx(ctx, dst, ks...) })
 	case "Ping":
-		do(func() { r.Ping() }, func() { r.PingCtx(ctx) })
+		ok := true
+		do(func() { ok = r.Ping() }, func() { ok = r.PingCtx(ctx) })
+		if !ok {
+			err = errPingFalse
+		}
 	case "Pipelined":
 		fn := func(p redis.Pipeliner) error {
 			p.Set(ctx, k, s, 0)
@@ -299,6 +303,8 @@ func c12CallCtx(ctx context.Context, r *redis.Redis, m string, a kit.M, uc bool)
 	return true, err
 }
 
+var errPingFalse = errors.New("ping: false")
+
 func TestVerifC12Wire(t *testing.T) {
 	cases, rep, shard, shards := c12Setup(t)
 	defer rep.Close()
@@ -341,6 +347,39 @@ func TestVerifC12Wire(t *testing.T) {
 				v.OK, v.Key = false, "C12:wire:"+m
 				v.Msg = fmt.Sprintf("%s(%s) put [%s] on the wire, specification [%s]", form, kit.Canon(a), g, w)
 				break
+			}
+		}
+		// context dimension: the Ctx form with a dead context
+		for _, mode := range []string{"canceled", "deadline"} {
+			if !v.OK || v.Infra {
+				break
+			}
+			ctx := c12Cancelled
+			if mode == "deadline" {
+				ctx = c12Expired
+			}
+			s.FlushAll()
+			rec.take()
+			_, err := c12CallCtx(ctx, r, m, a, true)
+			v.Steps++
+			sent := rec.take()
+			want := kit.Str(row["cerr"])
+			got := ""
+			switch {
+			case err == nil:
+			case err == errPingFalse:
+				got = "false"
+			case (mode == "canceled" && errors.Is(err, context.Canceled)) || (mode == "deadline" && errors.Is(err, context.DeadlineExceeded)):
+				got = "ctx"
+			default:
+				got = "other: " + err.Error()
+			}
+			if w := canonCmds(nil); len(sent) > 0 && len(kit.List(row["cw"])) == 0 {
+				v.OK, v.Key = false, "C12:ctx-form:ignores-context:"+m
+				v.Msg = fmt.Sprintf("%sCtx(%s) with a context that is already %s put [%s] on the wire (error %q), specification [%s] and the context's error", m, kit.Canon(a), mode, canonCmds(sent), got, w)
+			} else if got != want {
+				v.OK, v.Key = false, "C12:ctx-form:error:"+m
+				v.Msg = fmt.Sprintf("%sCtx(%s) with a context that is already %s returned %q, specification %q", m, kit.Canon(a), mode, got, want)
 			}
 		}
 		if !methods[m] {
@@ -442,6 +481,7 @@ func TestVerifC12Breaker(t *testing.T) {
 	steps:
 		for i, st := range c.Steps {
 			kind, n, expect, m := kit.Str(st["kind"]), kit.Num(st["n"]), kit.Str(st["expect"]), kit.Str(st["m"])
+			wantErr := kit.Str(st["err"])
 			if m == "" {
 				trail = append(trail, fmt.Sprintf("%s*%d", kind, n))
 			} else {
@@ -478,12 +518,39 @@ func TestVerifC12Breaker(t *testing.T) {
 				if err == breaker.ErrServiceUnavailable {
 					rejected++
 				} else {
-					// sanity of the harness: the burst really produced what its name says
-					ok := (kind == "ok" && err == nil) || (kind == "nil" && err == redis.Nil) ||
-						(kind == "cancel" && (errors.Is(err, context.Canceled) || m == "Ping" || m == "ScriptLoad")) ||
-						(kind == "down" && (err != nil || m == "Ping"))
-					if !ok {
-						v = kit.Verdict{Case: c.Index, Infra: true, Msg: fmt.Sprintf("step %d %s burst: unexpected result %v", i, kind, err)}
+					// what a call of this burst returns is part of the prediction
+					got := "other"
+					switch {
+					case err == nil || err == errPingFalse:
+						got = ""
+					case err == redis.Nil:
+						got = "nil"
+					case errors.Is(err, context.Canceled):
+						got = "canceled"
+					case wantErr == "conn":
+						got = "conn" // any failure of a call against a closed server
+					}
+					if got != wantErr {
+						name := m
+						if name == "" {
+							name = map[string]string{"ok": "Get", "nil": "HGet", "cancel": "Get", "down": "Get"}[kind]
+						}
+						switch {
+						case kind == "ok" || kind == "down":
+							v = kit.Verdict{Case: c.Index, Infra: true, Msg: fmt.Sprintf("step %d %s burst through %s: unexpected result %v", i, kind, name, err)}
+							break steps
+						case name == "Pipelined":
+							v.Key = "C12:pipeline:error-shape"
+						case kind == "cancel" && err == nil:
+							v.Key = "C12:ctx-form:ignores-context:" + name
+						case kind == "cancel":
+							v.Key = "C12:ctx-form:error:" + name
+						default:
+							v.Key = "C12:nil-reply:" + name
+						}
+						v.OK, v.Step = false, i
+						v.Msg = fmt.Sprintf("history %s: call %d of the %s burst through %s returned %v, specification: %s", strings.Join(trail, " "), j+1, kind, name,
+							err, map[string]string{"nil": "redis.Nil", "canceled": "an error that is context.Canceled", "": "no error"}[wantErr])
 						break steps
 					}
 				}
